@@ -16,6 +16,23 @@ def scenarios(mode, n, seed):
     return list({json.dumps(x["hist"]): x for x in b}.values()), r
 
 
+def cache_scenarios(thorough, rng):
+    """exhaustive three-frame histories over cache definitions / re-use in two segments; the ones where a re-use follows a
+    definition of the same internal index in the other segment are always taken"""
+    r = lib.tlc("gen/Gen_Recv.tla", "gen/Gen_Recv_cache.cfg", PID, "gen_cache", workers=4, timeout=900)
+    b = list({json.dumps(x["hist"]): x for x in r.printed()}.values())
+    reuse = [x for x in b if any(k[0].startswith("hdr_reuse") for k in x["hist"])]
+    if not reuse:
+        raise lib.ToolError("no cache re-use scenarios generated")
+
+    def cross(x):
+        h = x["hist"]
+        return h[2][0].startswith("hdr_reuse") and not h[1][0].startswith("hdr_reuse") and (h[1][0] == "hdr_s3") != (h[2][0] == "hdr_reuse_s3") and h[1][1] != h[2][1]
+    first = [x for x in reuse if cross(x)]
+    rest = [x for x in reuse if not cross(x)]
+    return first + (rest if thorough else rng.sample(rest, min(len(rest), 12))), r
+
+
 def run(tier, seed):
     v = lib.Verdict(PID, tier, seed, "model_checking")
     thorough = tier == "thorough"
@@ -28,6 +45,11 @@ def run(tier, seed):
     n_each = 400 if thorough else 55
     pick = lambda xs: rng.sample(xs, min(len(xs), n_each))
     scen = []
+    cache, r3 = cache_scenarios(thorough, rng)
+    v.cov["states"] += r3.distinct
+    v.cov["transitions"] += r3.generated
+    for s in cache:
+        scen.append({**s, "cut": 0, "via_read_half": False})
     for s in pick(hdr) + pick(pt):
         for cut in ((0, 1, 13) if thorough else (0, rng.choice([1, 5, 13]))):
             scen.append({**s, "cut": cut, "via_read_half": False})
